@@ -95,6 +95,7 @@ func run(d *props.Def, tier, repo, verif string, seed int, replay string) (code 
 	}
 	c = an.NewCheck(d.ID, tier, p)
 	c.Explain, c.NotCov = d.Explain, d.NotCov
+	c.RunControls(verif + "/checker")
 	d.Run(c)
 	if replay != "" {
 		fmt.Printf("replay %s: property re-evaluated on the current tree; matching obligations are printed above if still violated\n", replay)
